@@ -113,6 +113,9 @@ ATTR_BENIGN = {
     "__getstate__", "__setstate__", "__get__", "mro", "with_traceback", "ser_builtins_dict", "ser_default_class", "_serialize",
     "parse_args", "add_argument", "print_exc", "serve_forever", "server_close",
 }
+# the members of ATTR_BENIGN that are benign only because of what their receiver is taken to be (sockets, selectors, events, threads, files)
+OBJECT_VERBS = {"close", "shutdown", "settimeout", "setsockopt", "setblocking", "register", "unregister", "modify", "set", "wait", "acquire", "release", "start",
+                "notify", "notify_all", "write", "flush", "read", "readline", "seek", "serve_forever", "server_close"}
 # package methods that applications override (hooks): a call that may reach one may run arbitrary user code
 HOOK_METHODS_WILD = {
     "Pyro5.server.Daemon.validateHandshake": "user-overridable handshake validator",
@@ -275,6 +278,56 @@ class Escape:
                         f = ctx["f"]
                         out.setdefault(("builtins.TypeError", "fmt@%s:%s" % (f.qualname, n.left.value[:30])),
                                        ("%s %s: %%-format with %d conversions applied to `%s`, which is not a tuple display" % (f.loc(n), f.name, len(specs), ast.unparse(n.right)),))
+        self._merge(out, self._stringified_exceptions(exprs, ctx))
+        return out
+
+    def _stringified_exceptions(self, exprs, ctx):
+        """str(x) / repr(x) / "%s" % x / "...{}".format(x) / f"{x}" / "text" + str(x) where x is the exception bound by a handler that catches arbitrary classes
+        (`except Exception as x`, a bare except, or the value from sys.exc_info() inside one): the text comes from the class's own __str__/__repr__, which for an
+        exception raised by user code is user code and may raise. Arguments handed to a logging call are not formatted by the caller (the logging module formats
+        them later and contains what that raises), so they do not count."""
+        f = ctx["f"]
+        out = {}
+
+        def arbitrary(name, at):
+            n = getattr(at, "_parent", None)
+            while n is not None and n is not f.node:
+                if isinstance(n, ast.ExceptHandler):
+                    classes = self.handler_classes(n, f)
+                    wide = any(c in ("builtins.Exception", "builtins.BaseException") for c in classes)
+                    if n.name == name:
+                        return wide
+                    if wide:
+                        # assigned from sys.exc_info() inside this handler?
+                        for st in walk_no_nested(n):
+                            if isinstance(st, ast.Assign) and isinstance(st.value, ast.Call) and dotted(st.value.func) == "sys.exc_info":
+                                tg = st.targets[0]
+                                if isinstance(tg, ast.Tuple) and len(tg.elts) == 3 and isinstance(tg.elts[1], ast.Name) and tg.elts[1].id == name:
+                                    return True
+                n = getattr(n, "_parent", None)
+            return False
+
+        def hit(name_node, how):
+            out.setdefault((WILD, "str@%s:%s" % (f.qualname, how)),
+                           ("%s %s: %s builds text from a caught exception of arbitrary class (its __str__/__repr__ is user code and may raise)" % (f.loc(name_node), f.name, how),))
+        for e in exprs:
+            if e is None:
+                continue
+            for n in walk_no_nested(e):
+                if isinstance(n, ast.Call) and isinstance(n.func, ast.Name) and n.func.id in ("str", "repr") and len(n.args) == 1 and isinstance(n.args[0], ast.Name) \
+                        and arbitrary(n.args[0].id, n):
+                    hit(n, "%s(%s)" % (n.func.id, n.args[0].id))
+                elif isinstance(n, ast.BinOp) and isinstance(n.op, ast.Mod) and isinstance(n.left, ast.Constant) and isinstance(n.left.value, str):
+                    vals = n.right.elts if isinstance(n.right, ast.Tuple) else [n.right]
+                    for v in vals:
+                        if isinstance(v, ast.Name) and arbitrary(v.id, n):
+                            hit(n, "`... %% %s`" % v.id)
+                elif isinstance(n, ast.Call) and isinstance(n.func, ast.Attribute) and n.func.attr == "format" and isinstance(n.func.value, ast.Constant):
+                    for v in list(n.args) + [k.value for k in n.keywords]:
+                        if isinstance(v, ast.Name) and arbitrary(v.id, n):
+                            hit(n, "`'...'.format(%s)`" % v.id)
+                elif isinstance(n, ast.FormattedValue) and isinstance(n.value, ast.Name) and arbitrary(n.value.id, n):
+                    hit(n, "f-string {%s}" % n.value.id)
         return out
 
     def handler_classes(self, h, f):
@@ -452,7 +505,9 @@ class Escape:
                         for c in ATTR_RAISES[attr]:
                             out.setdefault((c, "ext@%s:.%s" % (f.qualname, attr)), ("%s %s: .%s() may raise %s" % (loc, f.name, attr, c.split(".")[-1]),))
                         continue
-                    if attr in ATTR_BENIGN:
+                    if attr in ATTR_BENIGN and not (attr in OBJECT_VERBS and isinstance(call.func.value, (ast.Subscript, ast.Call))):
+                        # (an object verb - close, write, set ... - applied to an element of a container or to a call result is not known to be the
+                        # socket / event / file the name suggests: `entry[3].close()` on a stream-table entry runs the user's iterator code)
                         if record:
                             self.calls_classified["ext_benign"] += 1
                         continue
